@@ -723,3 +723,46 @@ fn chunks_iter_total<const N: usize>() {
 fn c06_chunks_iter06_total() {
     chunks_iter_total::<7>();
 }
+
+// ---------------------------------------------------------------------------------------------
+// Parser stand-in for the feed-level harnesses of the connection layer (C03): returns one fixed
+// packet kind per harness with a symbolic token, ack and flags and the input bytes as payload.
+// What the real parser reports for a datagram is decided by c03_reader_reports_token06 / C06.
+
+pub static mut VERIF_READ_KIND: u8 = 0;
+/// the token the stub reported ([0xfe; 4] = none)
+pub static mut VERIF_READ_TOKEN: [u8; 4] = [0; 4];
+
+impl<'a> Packet<'a> {
+    pub fn verif_set_kind(k: u8) {
+        unsafe {
+            VERIF_READ_KIND = k;
+        }
+    }
+    pub fn verif_last_token() -> [u8; 4] {
+        unsafe { VERIF_READ_TOKEN }
+    }
+    pub fn verif_read_stub<'b, B, W>(_warn: &mut W, bytes: &'b [u8], token_hint: Option<bool>, _buffer: B) -> Result<Packet<'b>, PacketReadError>
+    where
+        B: Buffer<'b>,
+        W: Warn<Warning>,
+    {
+        let has_token = token_hint.unwrap_or(kani::any());
+        let t: [u8; 4] = kani::any();
+        let token = if has_token { Some(Token(t)) } else { None };
+        unsafe {
+            VERIF_READ_TOKEN = if has_token { t } else { [0xfe; 4] };
+        }
+        let ack: u16 = kani::any();
+        kani::assume(ack < 1024);
+        let type_ = match unsafe { VERIF_READ_KIND } {
+            0 => ConnectedPacketType::Control(ControlPacket::KeepAlive),
+            1 => ConnectedPacketType::Control(ControlPacket::Close(bytes)),
+            2 => ConnectedPacketType::Chunks(kani::any(), kani::any(), bytes),
+            3 => ConnectedPacketType::Control(ControlPacket::Connect),
+            4 => ConnectedPacketType::Control(ControlPacket::ConnectAccept),
+            _ => ConnectedPacketType::Control(ControlPacket::Accept),
+        };
+        Ok(Packet::Connected(ConnectedPacket { ack: ack, token: token, type_: type_ }))
+    }
+}
